@@ -16,20 +16,20 @@ import (
 
 // Plan is the schedule part of a script.
 type Plan struct {
-	Strategy string `json:"strategy"`           // rw | pct | rub | replay
-	Seed     uint64 `json:"seed,omitempty"`     // for rw / pct / rub
-	Choices  []int  `json:"choices,omitempty"`  // replay: index among the enabled tasks at each decision
+	Strategy string `json:"strategy"`          // rw | pct | rub | replay
+	Seed     uint64 `json:"seed,omitempty"`    // for rw / pct / rub
+	Choices  []int  `json:"choices,omitempty"` // replay: index among the enabled tasks at each decision
 }
 
 type chooser struct {
-	p      Plan
-	r      *sim.Rand
-	d      int   // decision counter
-	last   int   // task run last
-	prio   []int // pct
-	change []int // pct: steps at which the running task is demoted
+	p       Plan
+	r       *sim.Rand
+	d       int   // decision counter
+	last    int   // task run last
+	prio    []int // pct
+	change  []int // pct: steps at which the running task is demoted
 	preempt map[int]bool
-	Taken  []int // recorded choices (index among enabled)
+	Taken   []int // recorded choices (index among enabled)
 }
 
 // NewChooser builds the chooser for a plan with n tasks and an estimated run length.
@@ -117,6 +117,12 @@ func Run(p Plan, estSteps, maxSteps int, fns ...func()) *Result {
 	for i := range s.Trace {
 		fmt.Fprintf(&sb, "%d@%d,", s.Trace[i], s.TrSites[i])
 		fmt.Fprintf(&tb, "%d,", s.Trace[i])
+	}
+	if f := os.Getenv("VERIF_TRACE"); f != "" { // debugging aid: the interleaving as task@site, appended to a file
+		if fh, err := os.OpenFile(f, os.O_APPEND|os.O_CREATE|os.O_WRONLY, 0644); err == nil {
+			fmt.Fprintf(fh, "steps=%d %s\n", s.Steps, sb.String())
+			fh.Close()
+		}
 	}
 	r.SiteDigest = sim.Digest(sb.String())
 	r.Digest = sim.Digest(tb.String(), fmt.Sprint(s.Steps))
